@@ -183,7 +183,8 @@ NEEDS = {
 }
 EXTRA = {"C17-a": ["C10"], "C12-a": ["C07"], "C02-a": ["C12"], "C14-b": ["C05"], "C03-b": ["C07"], "C07-b": ["C03"],
          "C05-c": ["C09"], "C02-c": ["C08"], "C09-d": ["C18"], "C03-d": ["C02", "C05"],
-         "C04-d": ["C17"], "C11-d": ["C19"]}
+         "C04-d": ["C17"], "C11-d": ["C19"], "C07-d": ["C02", "C12", "C08"], "C02-d": ["C03"],
+         "C10-d": ["C11"]}
 
 
 def sh(cmd, **kw):
